@@ -457,7 +457,8 @@ impl<'a, 'b> GenCx<'a, 'b> {
 
     pub fn enum_string(&mut self, consts: &[&'static str]) -> String {
         if consts.is_empty() || (self.unknown_enums && self.t.chance(24)) {
-            return format!("X{}", self.t.string(Alpha::Simple, 6));
+            // an enum-like member is a string newtype: a token outside the declared constants is any text
+            return if self.unknown_enums && self.t.bool() { format!("X{}", self.t.string(Alpha::Xml, 8)) } else { format!("X{}", self.t.string(Alpha::Simple, 6)) };
         }
         (*self.t.pick(consts)).to_owned()
     }
